@@ -11,6 +11,11 @@ from vlib.harness import Harness, register
 from vlib.symx import fork_bool, fork_int, goal, only_shard
 
 
+A4 = [genlab.SEND, genlab.THROW, genlab.STOP, genlab.CLOSE]
+A5 = A4 + [genlab.THROWBASE]  # a BaseException that is not an Exception (KeyboardInterrupt, CancelledError)
+A_DEBUG = [genlab.SEND, genlab.THROW, genlab.STOP, genlab.THROWBASE]  # no close: closing a plan that sits at its debug pause is outside the claim
+
+
 def _kind(t, i):
     return t[i][0] if i < len(t) else "missing"
 
@@ -29,12 +34,18 @@ def _sub(code, log, tag):
     return mk
 
 
-def ref_finalize(plan, mkfinal):
+def ref_finalize(plan, mkfinal, pause_for_debug=False):
+    import bluesky.plan_stubs as bps
+
     closed = False
     try:
         ret = yield from plan
     except GeneratorExit:
         closed = True
+        raise
+    except BaseException:
+        if pause_for_debug:  # documented: pause before the cleanup so that the failure can be inspected
+            yield from bps.pause()
         raise
     finally:
         if not closed:
@@ -79,7 +90,7 @@ def _direct(trace, log, who, has_final=True):
         goal("closed-in-body")
         if nfinal != 0:
             tags.append(f"{who}:cleanup-ran-on-close")
-    elif has_final and nfinal == 0 and trace and trace[-1][0] in ("return", "raised"):
+    elif has_final and nfinal == 0 and trace and trace[-1][0] in ("return", "raised", "raised-base"):
         tags.append(f"{who}:cleanup-did-not-run")
     if nfinal == 1:
         goal("cleanup-ran")
@@ -95,19 +106,22 @@ def make_finalize(P):
           v1: int, v2: int, v3: int, v4: int, v5: int, v6: int, form: int) -> str:
         code, fcode = [c1, c2, c3, c4][:L], [f1, f2, f3][:Lf]
         script, vals = [a1, a2, a3, a4, a5, a6][:S], [v1, v2, v3, v4, v5, v6]
-        form = fork_int(form, 0, 2)  # 0: wrapper + callable, 1: wrapper + generator instance, 2: decorator
-        only_shard(fork_int(c1, 0, genlab.NOPS - 1) * 3 + form, P)
-        who = ("finalize_wrapper(callable)", "finalize_wrapper(instance)", "finalize_decorator")[form]
+        form = 3 if P.get("debug") else fork_int(form, 0, 2)  # 0: wrapper + callable, 1: wrapper + generator instance, 2: decorator, 3: wrapper with pause_for_debug
+        only_shard(fork_int(c1, 0, genlab.NOPS - 1) * 4 + form, P)
+        ACTS = P["acts"]
+        who = ("finalize_wrapper(callable)", "finalize_wrapper(instance)", "finalize_decorator", "finalize_wrapper(pause_for_debug)")[form]
         log0, log1 = [], []
-        t0 = genlab.drive(ref_finalize(genlab.interp(code, log0), _sub(fcode, log0, "f")), script, vals)
+        t0 = genlab.drive(ref_finalize(genlab.interp(code, log0), _sub(fcode, log0, "f"), pause_for_debug=form == 3), script, vals, alphabet=ACTS)
         mkf = _sub(fcode, log1, "f")
         if form == 0:
             real = bpp.finalize_wrapper(genlab.interp(code, log1), mkf)
         elif form == 1:
             real = bpp.finalize_wrapper(genlab.interp(code, log1), mkf())
-        else:
+        elif form == 2:
             real = bpp.finalize_decorator(mkf)(lambda: genlab.interp(code, log1))()
-        t1 = genlab.drive(real, script, vals)
+        else:
+            real = bpp.finalize_wrapper(genlab.interp(code, log1), mkf, pause_for_debug=True)
+        t1 = genlab.drive(real, script, vals, alphabet=ACTS)
         tags = _direct(t1, log1, who)
         i = genlab.first_diff(t0, t1)
         if i >= 0:
@@ -129,6 +143,7 @@ def make_contingency(P):
     import bluesky.preprocessors as bpp
 
     L, Ls, S = P["L"], P["Lf"], P["S"]
+    ACTS = P["acts"]
 
     def h(c1: int, c2: int, c3: int, f1: int, f2: int, e1: int, e2: int, l1: int, l2: int, a1: int, a2: int, a3: int, a4: int, a5: int, a6: int,
           v1: int, v2: int, v3: int, v4: int, v5: int, v6: int, has_e: bool, has_l: bool, has_f: bool, auto_raise: bool) -> str:
@@ -142,12 +157,12 @@ def make_contingency(P):
         t0 = genlab.drive(
             ref_contingency(genlab.interp(code, log0, ops=genlab.SIMPLE_OPS + (genlab.TRYEXC,)),
                             _sub(ecode, log0, "e") if he else None, _sub(lcode, log0, "l") if hl else None,
-                            _sub(fcode, log0, "f") if hf else None, ar), script, vals)
+                            _sub(fcode, log0, "f") if hf else None, ar), script, vals, alphabet=ACTS)
         real = bpp.contingency_wrapper(
             genlab.interp(code, log1, ops=genlab.SIMPLE_OPS + (genlab.TRYEXC,)),
             except_plan=_sub(ecode, log1, "e") if he else None, else_plan=_sub(lcode, log1, "l") if hl else None,
             final_plan=_sub(fcode, log1, "f") if hf else None, auto_raise=ar)
-        t1 = genlab.drive(real, script, vals)
+        t1 = genlab.drive(real, script, vals, alphabet=ACTS)
         tags = _direct(t1, log1, who, has_final=hf)
         i = genlab.first_diff(t0, t1)
         if i >= 0:
@@ -175,13 +190,17 @@ def _fns():
 
 
 _SYM = ("wrapped program: L opcodes of the genlab grammar; cleanup / except / else programs: Lf opcodes in {yield, raise, return, end}; "
-        "driver script: S actions in {send symbolic int, throw Boom, throw RequestStop, close}; flags has_except/has_else/has_final/auto_raise; "
-        "final_plan given as callable, generator instance or through the decorator")
-_OUT = "longer programs/scripts; pause_for_debug=True; close() arriving while the except/else plan runs is compared with literal Python semantics only"
+        "driver script: S actions in {send symbolic int, throw Boom, throw RequestStop, throw a BaseException that is not an Exception, close}; flags has_except/has_else/has_final/auto_raise; "
+        "final_plan given as callable, generator instance, through the decorator, or with pause_for_debug=True")
+_OUT = "longer programs/scripts; close() arriving while the except/else plan runs is compared with literal Python semantics only"
 register(Harness("c22_finalize", "C22", make_finalize,
-                 {"quick": dict(L=3, Lf=2, S=3, shards=21, budget_s=240, per_path_s=20), "thorough": dict(L=4, Lf=3, S=5, shards=21, budget_s=3000, per_path_s=30)},
+                 {"quick": dict(L=3, Lf=2, S=3, acts=A4, shards=21, budget_s=300, per_path_s=20), "thorough": dict(L=4, Lf=2, S=4, acts=A5, shards=28, budget_s=3000, per_path_s=30)},
                  goals=["closed-in-body", "cleanup-ran", "raised", "returned"], functions=_fns, symbolic=_SYM, out_of_bound=_OUT, require_exhaustive=True))
+register(Harness("c22_debug_pause", "C22", make_finalize,
+                 {"quick": dict(L=2, Lf=1, S=3, acts=A_DEBUG, debug=True, shards=8, budget_s=300, per_path_s=20), "thorough": dict(L=3, Lf=2, S=4, acts=A_DEBUG, debug=True, shards=16, budget_s=3000, per_path_s=30)},
+                 goals=["cleanup-ran", "raised"], functions=_fns, symbolic=_SYM + " -- finalize_wrapper(pause_for_debug=True): the driver also answers the debug pause", out_of_bound=_OUT + "; close() while the plan sits at its debug pause",
+                 require_exhaustive=True))
 register(Harness("c22_contingency", "C22", make_contingency,
-                 {"quick": dict(L=2, Lf=2, S=4, shards=16, budget_s=240, per_path_s=20), "thorough": dict(L=3, Lf=2, S=5, shards=16, budget_s=3000, per_path_s=30)},
+                 {"quick": dict(L=2, Lf=2, S=3, acts=A5, shards=16, budget_s=300, per_path_s=20), "thorough": dict(L=3, Lf=2, S=4, acts=A5, shards=16, budget_s=3000, per_path_s=30)},
                  goals=["closed-in-body", "cleanup-ran", "except-plan-ran", "else-plan-ran"], functions=_fns, symbolic=_SYM, out_of_bound=_OUT,
                  require_exhaustive=True))
